@@ -48,6 +48,8 @@ def gen_case(rng):
     if kind == "ok-offd":
         g = F.Gen(rng, VARS, F.ALL_DISCRETE_OFFLINE, max_bound=4)
         f = g.formula(rng.choice([1, 2, 3, 4]))
+        if rng.random() < 0.45:
+            f = F.shared_variable_formula(rng, g, VARS)       # one variable read directly by several temporal operators
     elif kind == "ok-ond":
         g = F.Gen(rng, VARS, F.PAST_ONLY, max_bound=4)
         f = g.formula(rng.choice([1, 2, 3, 4]))
@@ -82,7 +84,9 @@ def run_impl(case):
             ds = {"time": list(range(n))}
             for v in order:
                 ds[v] = list(data[v])
-            return [p[1] for p in spec.evaluate(ds)]
+            res = [p[1] for p in spec.evaluate(ds)]
+            spec.evaluate(ds)                  # the same object and data set once more: must not raise either
+            return res
         spec = impl.make_spec("ond", text, case["decl"])
         spec.parse()
         if mon == "past":
@@ -207,7 +211,7 @@ def replay(ctx, obj):
 
 
 def run(ctx):
-    explore(ctx, ctx.subrng("wf"), ctx.budget(500, 8000))
+    explore(ctx, ctx.subrng("wf"), ctx.budget(1500, 12000))
     if not ctx.violations:
         modular_stream(ctx, ctx.subrng("wf-mod"), ctx.budget(300, 4000))
     if not ctx.violations:
